@@ -142,6 +142,10 @@ def main(argv):
     cmds.append(cur)
     sys.path.insert(0, os.path.join(a.repo, "pym"))
     os.environ["BOB_VERIF"] = "1"
+    import bob as _bobpkg
+    if os.path.realpath(os.path.dirname(os.path.dirname(_bobpkg.__file__))) != os.path.realpath(os.path.join(a.repo, "pym")):
+        print("boblaunch: bob imported from %s, not from %s" % (_bobpkg.__file__, a.repo), file=sys.stderr)
+        return 98
     from bob.scripts import bob
     rec = Recorder(a.events, a.kill_at)
     if not a.no_record:
